@@ -39,7 +39,7 @@ def _cd(a, b):
     return n
 
 
-def graphs(n, k, with_async=False):
+def graphs(n, k, with_async=False, with_sw=False):
     """canonical representatives (up to renaming of simulators) of all
     (placement, set of <=k distinct (src, dst, kind)) with >= 1 connection"""
     sids = SIDS[:n]
@@ -52,6 +52,8 @@ def graphs(n, k, with_async=False):
                 kinds = ["p", "s"]
                 if _cd(PLACES[place[a]], PLACES[place[b]]) >= 2:
                     kinds.append("w")
+                    if with_sw:
+                        kinds.append("sw")      # ONE connection that is weak and time-shifted
                 if with_async:              # (also between two entities of ONE simulator)
                     kinds += ["a", "as"]        # async with a plain / a time-shifted data flow
                     if "w" in kinds:
@@ -61,6 +63,8 @@ def graphs(n, k, with_async=False):
         for m in range(1, k + 1):
             for cs in itertools.combinations(opts, m):
                 if with_async and not any(c[2].startswith("a") for c in cs):
+                    continue
+                if with_sw and not any(c[2] == "sw" for c in cs):
                     continue
                 # every simulator must take part (smaller n covers the rest)
                 used = {c[0] for c in cs} | {c[1] for c in cs}
@@ -92,6 +96,20 @@ def motif4():
             yield place, cs
 
 
+def sw_rings():
+    """rings A -> B -> C -> A with A, B in one group and C inside / outside it, the first edge of
+    every kind including weak+time-shifted, an optional back edge B -> A"""
+    for place in ((1, 1, 0), (1, 1, 2), (3, 3, 1), (1, 1, 1), (3, 3, 3), (3, 3, 0)):
+        for k1 in ("p", "s", "w", "sw"):
+            for k2 in ("p", "s"):
+                for k3 in ("p", "s"):
+                    for back in (None, "p", "w", "sw"):
+                        cs = [(0, 1, k1), (1, 2, k2), (2, 0, k3)]
+                        if back:
+                            cs.append((1, 0, back))
+                        yield place, tuple(cs)
+
+
 def to_scen(n, place, cs):
     sims = [dict(sid=SIDS[i], type="event-based", group=PLACES[place[i]], init_event=0,
                  emit_default=None) for i in range(n)]
@@ -102,6 +120,9 @@ def to_scen(n, place, cs):
             c["shift"] = 1
         elif kd == "w":
             c["weak"] = True
+        elif kd == "sw":
+            c["weak"] = True
+            c["shift"] = 1
         elif kd == "a":
             c["async"] = True
         elif kd == "as":
@@ -195,7 +216,8 @@ def _walk_problem(topo, walk):
 def _fmt(scen):
     g = {s["sid"]: s.get("group") for s in scen["sims"]}
     cs = [(c["src"], c["dst"], ("a" if c.get("async") else "") +
-           ("s" if c.get("shift") else "w" if c.get("weak") else "" if c.get("async") else "p"))
+           ("sw" if c.get("shift") and c.get("weak") else "s" if c.get("shift") else "w" if c.get("weak")
+            else "" if c.get("async") else "p"))
           for c in scen["conns"]]
     return f"groups={g} conns={cs}"
 
@@ -237,6 +259,14 @@ def check(prop, tier):
     counts["motif4 (2+2 simulators, 6 connections)"] = len(gs)
     for i in range(0, len(gs), 200):
         jobs.append((4, gs[i:i + 200]))
+    for n, k in ((1, 3), (2, 3)) if tier == "quick" else ((1, 4), (2, 4), (3, 3)):
+        gs = list(graphs(n, k, False, True))
+        counts[f"n={n},k<={k},weak+shifted"] = len(gs)
+        for i in range(0, len(gs), 200):
+            jobs.append((n, gs[i:i + 200]))
+    gs = list(sw_rings())
+    counts["rings with a weak+time-shifted edge"] = len(gs)
+    jobs.append((3, gs))
     rep = findings.Reporter("C06")
     slow = []
     total = cyc_n = 0
